@@ -237,6 +237,7 @@ def main(argv=None):
     not_reproduced = []
     seen_keys = set()
     budget = 40
+    known_budget = collections.Counter()        # up to 3 replays per known finding, independent of the rest
     # unknown-to-us violations first
     all_viol.sort(key=lambda t: (t[2].get('known') is not None))
     for item, cfg, v in all_viol:
@@ -244,9 +245,14 @@ def main(argv=None):
         if key in seen_keys:
             continue
         seen_keys.add(key)
-        if budget <= 0:
-            break
-        budget -= 1
+        if v.get('known') is not None:
+            if known_budget[v['known']] >= 3 or v['known'] in set(k for _, _, k in confirmed):
+                continue
+            known_budget[v['known']] += 1
+        else:
+            if budget <= 0:
+                continue
+            budget -= 1
         path = write_replay(prop, harness_mod, item['fn'], cfg, v)
         ok, out = run_replay(path)
         if ok:
